@@ -6,8 +6,10 @@ pdep / pext / bit reversal on 64-bit words as limbs, the portable string hash) a
 of the batch events; MC_Kernels model-checks the coherence theorems on tiny domains (state machine = code
 point definition of UTF-8, Dec(Enc(x)) = x, CRC(a.b) = update(update(init, a), b), pdep/pext/select laws,
 contract accepts the defined answers and rejects corrupted ones).  Harness bin c14 runs every accelerated
-entry point of zipora at sampled alignments and at page ends in front of PROT_NONE guard pages, in child
-processes; Trace_Kernels validates: the oracle is the TLA+ definition evaluated by TLC.
+entry point of zipora (memory::simd_ops, io::simd_memory::{copy,search}, string::{simd_search,bmi2_string_ops,unicode,hex},
+io::simd_validation::{utf8,checksum}, io::simd_encoding::base64, system::base64, entropy::bit_ops,
+hash_map::simd_string_ops, fsa::fast_search) at sampled alignments and at page ends in front of PROT_NONE guard
+pages, in child processes; Trace_Kernels validates: the oracle is the TLA+ definition evaluated by TLC.
 """
 import glob
 import json
@@ -240,7 +242,8 @@ def run(ctx):
         "last and absent (substring / set search, needle lengths 1..40 / sets of 1..33 bytes), every byte string of length <= 4 over "
         "the 12 UTF-8 class representatives bare and of length <= 3 written at offsets %s of a 70-byte ASCII frame, CRC-32C of every "
         "length 0..130 plus incremental splits, Base64 / hex of lengths 0..36, 47..50, 63..66, 95..97, 127..130 plus damaged texts, "
-        "bit words (single bits, runs, random) x masks.  Non-trivial = non-empty input.  Every case is executed at %s placements "
+        "bit words (single bits, runs, random) x masks, UTF-8 decoding / UTF-16 transcoding of random well-formed and damaged text, byte "
+        "search engine strategies (linear / SIMD / SSE4.2 / rank-select / adaptive) incl. a 256-value histogram of one buffer.  Non-trivial = non-empty input.  Every case is executed at %s placements "
         "(source / destination alignment sampled on {0,1,7,8,15,16,31,32,33,63}, and ending exactly at / starting exactly after a "
         "PROT_NONE guard page); placements with the same answer share one event (np, pl); calls_of_real_code counts the calls."
         % (("0..130" if ctx.thorough else "{0-3,7-9,15-17,31-33,47-49,63-66,95-97,127-130}"),
